@@ -51,8 +51,11 @@ RULES = {
     "return …`; stored unconditionally, each tensor the writer evaluates stays alive inside its LazyTensor after its reservation was "
     "released, so the process ends up holding the sum of all lazy initializers instead of the budget plus the largest tensor, although "
     "the budget protocol itself is followed to the letter",
+    "R14": "what a worker holds for an external tensor is what it reserved (rule shared with C04-R20): every read of the copy loop of "
+    "`ExternalTensor.tofile` is bounded by the chunk constant that `_reservation_bytes` names - a chunk scaled by the element size makes "
+    "a float64 worker hold eight times its reservation, and the workers together exceed the budget plus the largest single tensor",
 }
-FLOORS = {"R1": 6, "R2": 3, "R3": 1, "R4": 2, "R5": 3, "R6": 1, "R7": 2, "R8": 3, "R9": 2, "R10": 6, "R11": 10, "R12": 1, "R13": 1}
+FLOORS = {"R1": 6, "R2": 3, "R3": 1, "R4": 2, "R5": 3, "R6": 1, "R7": 2, "R8": 3, "R9": 2, "R10": 6, "R11": 10, "R12": 1, "R13": 1, "R14": 1}
 EXPLANATION = (
     "Lock-set analysis over the external-data writer: which fields are touched under which `with`, pairing of "
     "acquire/release through try/finally, lock context of every call path from submitted functions to tensor "
@@ -929,6 +932,9 @@ def rule_r13(ctx):
 
 
 def run(ctx):
+    from . import c04
+
+    c04.rule_r20(ctx, rule="R14", which="reserved")
     rule_r13(ctx)
     rule_r12(ctx)
     rule_r11(ctx)
